@@ -265,7 +265,24 @@ def run(ctx):
 
     if bad:
         # which component; smallest texts first
-        order = sorted(bad, key=lambda b: len(cases[idx[b]][1]))[:120]
+        def explained(b):
+            """only variables/1 differs, and only by omitting anonymous variables (Python mirror; classification only)"""
+            tag, text, toks = cases[idx[b]]
+            o = obs[idx[b]]
+            ids, n, anon = model_numbering(toks)
+            first = {}
+            for t, i_ in zip(toks, ids):
+                if t != "_" and t not in first: first[t] = i_
+            vn = [(t, i_) for t, i_ in first.items()]
+            ss = sorted((t, i_) for t, i_ in first.items() if toks.count(t) == 1)
+            vs = o[2]
+            return (o[1] == ids and o[3] == vn and sorted(o[4]) == ss and vs != list(range(n)) and
+                    vs == [x for x in range(n) if x in vs] and all(x in anon for x in range(n) if x not in vs))
+        unexplained = [b for b in bad if not explained(b)]
+        dist["failing_cases_not_explained_by_missing_anonymous_variables"] = len(unexplained)
+        pri = {"flat2": 0, "root": 1, "list": 2}
+        rest = sorted((b for b in bad if b not in set(unexplained)), key=lambda b: (pri.get(cases[idx[b]][0], 3), len(cases[idx[b]][1])))
+        order = (sorted(unexplained, key=lambda b: len(cases[idx[b]][1]))[:60] + rest)[:100]
         d_exprs = []
         for b in order:
             i = idx[b]
